@@ -99,6 +99,23 @@ CHECKS = {
         "Trusted: generator classification native/foreign; readers for the meaning of foreign inputs.",
         "DESIGN.md 4/C06",
     ),
+    "C07": (
+        "exploration",
+        "complete enumeration of configurations as ordered arrangements of distinct sections "
+        "(ACLs, address groups, interfaces with bindings, noise) x indentation x platform x name "
+        "filter; acls()/aces()/addrgroups() compared with a model computed from the arrangement",
+        "Every ordered arrangement of <=3 (quick) / <=4 (thorough) distinct sections of a 14-section "
+        "alphabet (two extended ACLs referencing a defined group on source, destination and both "
+        "sides and an undefined group, a standard ACL, two groups, five interfaces incl. in+out of "
+        "two ACLs on one interface and duplicate bindings, four kinds of noise incl. a three-level "
+        "section and comment lines), indentation 1..3, both platforms, all 7 non-empty name filters "
+        "on the two-section arrangements: names/order/type, items by meaning, sorted duplicate-free "
+        "input/output lists, exactly the defined group's members (IOS masks read as wildcards) on "
+        "every referencing side, nothing on plain addresses; aces() and addrgroups() likewise.",
+        "Trusted: the section model in the check, readers. Configurations with duplicate headers or "
+        "ACL sections without body lines are outside the domain.",
+        "DESIGN.md 4/C07",
+    ),
     "C08": (
         "model_checking",
         "complete enumeration of operator x operand products against the set definitions, all "
